@@ -453,7 +453,8 @@ void model_apply(model_t *m, size_t oi) {
         case OP_OMIT: { msig_t *s = &m->sig[o->id]; if (s->defined && s->fsr) { s->omit_state = o->enable ? 1 : 0; if (o->enable) s->omit_ever = 1; } break; }
         case OP_ANNO: { msig_t *s = &m->sig[o->id]; if (s->defined) push_idx(&s->anno, &s->nanno, &s->annocap, oi); break; }
         case OP_UTC: { msig_t *s = &m->sig[o->id]; if (s->defined && s->fsr) push_idx(&s->utc, &s->nutc, &s->utccap, oi); break; }
-        case OP_USER: push_idx(&m->user, &m->nuser, &m->usercap, oi); break;
+        /* storage type INVALID is the writer's own placeholder: accepted from callers too, stores no item */
+        case OP_USER: if (o->stype != JLS_STORAGE_TYPE_INVALID) push_idx(&m->user, &m->nuser, &m->usercap, oi); break;
         default: break;
     }
 }
@@ -503,7 +504,7 @@ int32_t exec_op_sync(struct jls_wr_s *wr, const prog_t *p, op_t *o) {
         case OP_USER: {
             uint8_t *b = gen_payload(o->stype, o->dsize, o->dseed);
             v_api("jls_wr_user_data");
-            rc = jls_wr_user_data(wr, o->meta, o->stype, o->expect_reject == 3 ? NULL : b, o->stype == JLS_STORAGE_TYPE_BINARY ? o->dsize : 0);
+            rc = jls_wr_user_data(wr, o->meta, o->stype, o->expect_reject == 3 ? NULL : b, (o->stype == JLS_STORAGE_TYPE_BINARY || o->stype == JLS_STORAGE_TYPE_INVALID) ? o->dsize : 0);
             free(b);
             break;
         }
